@@ -240,9 +240,35 @@ def run_case(ctx, case):
                 return f"opening a synthetic {case['fmt']} data set raised {type(e).__name__}: {str(e)[:120]}", False
             if case.get('cf2'):
                 return multi_spw(ctx, case, d, tr), True
-            return drive(ctx, case, d, tr)
+            v, nontrivial = drive(ctx, case, d, tr)
+            if v is None and case['fmt'] != 'v4' and case['seed'] % 3 == 0:
+                v = reopen_with_offset(ctx, case, tr)
+            return v, nontrivial
     finally:
         shutil.rmtree(tmp, ignore_errors=True)
+
+
+def reopen_with_offset(ctx, case, tr):
+    """the documented conversion option of katdal.open: time_offset shifts every timestamp (and the start and end
+    time with them) by that many seconds and leaves the data alone"""
+    off = [2.5, -1.25, 64.0][case['seed'] // 3 % 3]
+    kw = dict(tr.syn.open_kwargs)
+    kw['time_offset'] = off
+    try:
+        d0 = tr.syn.open(**dict(tr.syn.open_kwargs, time_offset=0.0))
+        d1 = tr.syn.open(**kw)
+    except Exception as e:   # noqa: BLE001
+        return f'katdal.open(..., time_offset={off}) raised {type(e).__name__}: {str(e)[:100]}'
+    ctx.tag('reopen-time-offset')
+    t0, t1 = np.asarray(d0.timestamps[:]), np.asarray(d1.timestamps[:])
+    if t0.shape != t1.shape or not np.array_equal(t1, t0 + off):
+        return (f'katdal.open(..., time_offset={off}): timestamps start at {t1[:2].tolist()}, without the offset at '
+                f'{t0[:2].tolist()} (every timestamp must move by the offset)')
+    if abs((d1.start_time.secs - d0.start_time.secs) - off) > 1e-6 or abs((d1.end_time.secs - d0.end_time.secs) - off) > 1e-6:
+        return f'katdal.open(..., time_offset={off}): start / end time did not move by the offset'
+    if not np.array_equal(np.asarray(d1.vis[:]), np.asarray(d0.vis[:])):
+        return f'katdal.open(..., time_offset={off}) changed the visibilities'
+    return None
 
 
 def multi_spw(ctx, case, d, tr):
